@@ -56,6 +56,27 @@ CHECKS = {
             "productions) under several hash seeds and name pools; the derivability oracle is itself model-checked "
             "against bounded leftmost rewriting (DerivOK).",
             "Trusted: TLC, projection. Membership is compared on all words up to L=4|5 only.", "DESIGN.md section 3 C08"),
+    "C09": ("TLA+ grammar generator (CFGGen) enumerated by TLC; remove_useless_symbols / remove_epsilon / "
+            "eliminate_unit_productions / to_normal_form replayed on every grammar and judged by TraceCFG: bounded "
+            "language equality (least fixpoint, CFGSem) and the shape predicates OnlyUseful / NoEps / NoUnit / IsCNF",
+            "Exhaustive within small constants plus directed shapes (unit cycles, nullable chains, long bodies with "
+            "shared suffixes, variables named like the CNF helper variables) and a random family; language compared on "
+            "all words up to L=4|5, shapes decided exactly.",
+            "Trusted: TLC, projection. Language equality bounded by L.", "DESIGN.md section 3 C09"),
+    "C10": ("TLA+ grammar generator (CFGGen) enumerated by TLC, paired; union/concatenate/closures/reverse/substitute "
+            "and | + ~ replayed and judged by TraceCFG against the word-set algebra (Cat, Star, Rev, substitution "
+            "fixpoint) of CFGSem truncated at L",
+            "Spec-generated grammars paired with rotating partners and with themselves (same object twice), shared "
+            "variable names and look-alikes of the library's fresh names; every result language is compared with the "
+            "set-algebraic expectation on all words up to length 4.",
+            "Trusted: TLC, projection. Pairs are a sample of the product; language equality bounded by L=4.",
+            "DESIGN.md section 3 C10"),
+    "C12": ("TLA+ grammar generator (CFGGen) enumerated by TLC; is_empty / is_finite / symbol classes / get_words(n) "
+            "replayed and judged by TraceCFG against CFGSem (generating, nullable, reachable fixpoints; growing-cycle "
+            "finiteness; bounded language), the oracle itself model-checked (EmptyOK, NullOK, FiniteOK, DerivOK)",
+            "Exhaustive within small constants, all bounds n in 0..L and unbounded enumeration on finite languages "
+            "(termination by step budget); every answer compared exactly with the set computed by TLC.",
+            "Trusted: TLC, projection. get_words compared up to L=4|5.", "DESIGN.md section 3 C12"),
 }
 
 NOT_YET = "check not built yet in this round (see DESIGN.md section 9, build order); no claim is made"
